@@ -62,6 +62,8 @@ pub fn areas() -> Vec<&'static str> {
         "c03",
         "c04",
         "c07",
+        "c08",
+        "c09",
         "c10",
         "c11",
         "c12",
@@ -74,7 +76,6 @@ pub fn areas() -> Vec<&'static str> {
         "c19",
         "c20",
     ]
-    vec!["c17", "c08", "c09"]
 }
 
 /// Decode a hex string.
